@@ -767,6 +767,7 @@ impl Mirror {
                 s.win = None;
                 s.fin = None;
                 s.exp = None;
+                s.last_off = None; // since 7409f59
                 s.idle = false;
                 s.so = h.so;
                 i
@@ -782,6 +783,10 @@ impl Mirror {
             return Pred::Err("segment_out_of_bounds");
         }
         let idx = if h.last() {
+            // since 7409f59: a second LAST frame is a duplicate before its size is adopted
+            if s.last_off.is_some() {
+                return Pred::Err("duplicate_segment");
+            }
             s.fin = Some(off + f.len);
             s.last_off = Some(h.off);
             255
@@ -812,6 +817,16 @@ impl Mirror {
                 return Pred::Err("last_frame_offset_alignment_invalid");
             }
             s.exp = Some(fin.div_ceil(win));
+        }
+        // since 7409f59: with the frame count known, middle frames must lie before the LAST frame and
+        // the LAST frame must follow them directly
+        if let (Some(e), Some(win), Some(lo)) = (s.exp, s.win, s.last_off) {
+            let li = e.saturating_sub(1);
+            let mid_beyond = (li..255).any(|i| s.mask[i / 128] & (1u128 << (i % 128)) != 0);
+            if lo as usize != li * win || (!h.last() && idx >= li) || mid_beyond {
+                s.idle = true;
+                return Pred::Err("frame_beyond_last_frame");
+            }
         }
         let bit = 1u128 << (idx % 128);
         if s.mask[idx / 128] & bit != 0 {
@@ -861,8 +876,7 @@ impl Mirror {
                 out.extend_from_slice(&o(s.win));
                 out.extend_from_slice(&o(s.fin));
                 out.extend_from_slice(&o(s.exp));
-                // last_frame_offset survives init() but is only read together with final size
-                out.extend_from_slice(&o(if s.fin.is_some() { s.last_off.map(|v| v as usize) } else { None }));
+                out.extend_from_slice(&o(s.last_off.map(|v| v as usize)));
             }
             out.push(s.buf.len() as u8);
             for &(a, b, p) in &s.buf {
